@@ -8,6 +8,7 @@ statement is vacuous. "The code returns a curve" = `Res.ok`, "the code returns t
 "the code panics" = `Res.panic`.
 -/
 import Ymq.Lemmas.CurveBuild
+import Ymq.Lemmas.CurveBuildFin
 import Mathlib.Algebra.Group.Basic
 import Mathlib.Tactic.Linarith
 
@@ -366,6 +367,7 @@ theorem select128_sound (hl : ctx.Lawful) (a b gx gy : R)
   obtain ⟨e1, _, e3⟩ := element_sound ctx hl a b gx gy hg (seed + 1) (by omega)
   unfold select128
   rw [hmod]
+  simp only [show ¬ (seed + 1 ≥ 2 ^ 32) from by omega, if_false]
   have hbind : (element ctx a b gx gy (seed + 1)).bind (paramsPoint ctx a b gx gy) ≠ .panic ∧
       ∀ d, (element ctx a b gx gy (seed + 1)).bind (paramsPoint ctx a b gx gy) = .err d → d ∣ ctx.n ∧ d ≠ 1 := by
     cases he : element ctx a b gx gy (seed + 1) with
@@ -414,9 +416,88 @@ theorem curve128_from_spec (c : CurveData R) (words : Nat) :
         simp [this]
     simp [this, h]
 
+/-- `seed as u32 + 1` of `ecm128::ecm` at `seed ≡ 2^32 - 1`: a panic in both profiles (overflow in the checked
+profile; in release the sum wraps to 0 and `element(0)` fails `assert!(seed > 1)`). Out of reach of the
+callers (`curves ≤ 256`); this is why `select128_sound` assumes `seed + 1 < 2^32`. -/
+theorem select128_overflow_panics (a b gx gy : R) (seed : Nat) (h : seed % 2 ^ 32 = 2 ^ 32 - 1) :
+    select128 ctx a b gx gy seed = .panic := by
+  unfold select128
+  rw [if_pos (by rw [h]; norm_num)]
+
+end
+
+/-! ### the same statements for the context the native driver runs
+
+The K comparison of `suyama`, `curve_build`, `from_point`, `ecm_select` runs `finCtx n` (canonical residues
+`Fin n`, inverse by extended Euclid; Model/Suyama.lean) through `suyamaNewFin`, `suyamaCurveFin`, `fromPointFin`,
+`selectCurveFin`. `finCtx n` is lawful, so the theorems above hold of these very functions. -/
+section
+open scoped Fin.CommRing
+variable (n : Nat) [NeZero n]
+
+/-- the context of the driver (residues in `Fin n`, `inv` by extended Euclid with fuel `n + 1`) is lawful:
+`inv` finds the inverse of every unit and fails on every non-unit. -/
+theorem driver_ctx_lawful : (finCtx n).Lawful := finCtx_lawful n
+
+theorem driver_ctx_char : (((finCtx n).n : Nat) : Fin n) = 0 := by
+  obtain ⟨k, rfl⟩ := Nat.exists_eq_succ_of_ne_zero (NeZero.ne n)
+  exact ZMod.natCast_self (k + 1)
+
+/-- `suyama_new_spec` for the driver's `Suyama11::new` -/
+theorem suyama_new_fin_spec (chk : Bool) :
+    (n % 3 = 0 → suyamaNewFin n chk = .err 3) ∧
+    (n % 3 ≠ 0 → ∃ t : Fin n, ((3 : Nat) : Fin n) * t = 1 ∧ suyamaNewFin n chk = .ok (suyamaConsts t) ∧
+      suyamaIsValid (suyamaConsts t).1 (suyamaConsts t).2.1 (suyamaConsts t).2.2.1 (suyamaConsts t).2.2.2
+        ⟨(suyamaConsts t).2.2.1, (suyamaConsts t).2.2.2, 1⟩) :=
+  suyama_new_spec (finCtx n) (finCtx_lawful n) (driver_ctx_char n) chk
+
+/-- `suyama_curve_sound` for the function answering `curve_build .. s` in the driver -/
+theorem suyama_curve_fin_sound (a b gx gy : Fin n) (hg : suyamaIsValid a b gx gy ⟨gx, gy, 1⟩)
+    (seed : Nat) (h2 : 2 ≤ seed) :
+    suyamaCurveFin n a b gx gy seed ≠ .panic ∧
+    (∀ c, suyamaCurveFin n a b gx gy seed = .ok c → c.twisted = true ∧ ecmIsValid c.d true c.g) ∧
+    (∀ d, suyamaCurveFin n a b gx gy seed = .err d → d ∣ n ∧ d ≠ 1) :=
+  suyama_curve_sound (finCtx n) (finCtx_lawful n) a b gx gy hg seed h2
+
+/-- `from_point_sound` for the function answering `from_point` / `curve_build .. e` in the driver -/
+theorem from_point_fin_sound (chk : Bool) (x y : Nat) (hx : 0 < x) (hy : 0 < y)
+    (hx31 : x < 2 ^ 31) (hy31 : y < 2 ^ 31) :
+    fromPointFin n chk x y ≠ .panic ∧
+    (∀ c, fromPointFin n chk x y = .ok c → c.twisted = false ∧ c.g = ⟨(x : Fin n), (y : Fin n), 1⟩ ∧
+      ecmIsValid c.d false c.g) ∧
+    (∀ f, fromPointFin n chk x y = .err f → f ∣ n ∧ f ≠ 1) :=
+  from_point_sound (finCtx n) (finCtx_lawful n) chk x y hx hy hx31 hy31
+
+/-- `select_curve_sound` for the function answering `ecm_select` in the driver -/
+theorem select_curve_fin_sound (chk : Bool) (a b gx gy : Fin n)
+    (hg : suyamaIsValid a b gx gy ⟨gx, gy, 1⟩) (seed : Nat) (h2 : 2 ≤ seed) :
+    (selectCurveFin n chk a b gx gy seed ≠ .panic) ∧
+    (∀ c, selectCurveFin n chk a b gx gy seed = .curve c → ecmIsValid c.d c.twisted c.g) ∧
+    (∀ p, selectCurveFin n chk a b gx gy seed = .factor p → p ∣ n ∧ 1 < p ∧ p < n) :=
+  select_curve_sound (finCtx n) (finCtx_lawful n) (Nat.pos_of_ne_zero (NeZero.ne n)) chk a b gx gy hg seed h2
+
+/-- `ecm::ecm(n, curves, ..)` as the driver answers `ecm_select`, for every modulus `n > 0` prime to 3 and
+every number of curves below `2^63`: `Suyama11::new(..).unwrap()` succeeds, and for every seed of the
+generator `do_curve` does not panic before `ecm_curve`, runs only curves whose generator is on them, and
+returns only proper divisors of `n` (both profiles). -/
+theorem ecm_select_fin_sound (chk : Bool) (curves : Nat) (h3 : n % 3 ≠ 0) :
+    ∃ a b gx gy : Fin n, suyamaNewFin n chk = .ok (a, b, gx, gy) ∧
+      ∀ l, ecmSeeds n curves = some l → ∀ s ∈ l,
+        (selectCurveFin n chk a b gx gy s ≠ .panic) ∧
+        (∀ c, selectCurveFin n chk a b gx gy s = .curve c → ecmIsValid c.d c.twisted c.g) ∧
+        (∀ p, selectCurveFin n chk a b gx gy s = .factor p → p ∣ n ∧ 1 < p ∧ p < n) := by
+  obtain ⟨t, _, hok, hv⟩ := (suyama_new_fin_spec n chk).2 h3
+  refine ⟨_, _, _, _, hok, fun l hl s hs => ?_⟩
+  exact select_curve_fin_sound n chk _ _ _ _ hv s ((ecm_seeds_spec n curves l hl).2 s hs).1
+
 end
 
 /-! non-vacuity of the remaining hypotheses -/
+example : select128 (zmodCtx 35) 0 0 0 0 (2 ^ 32 - 1) = .panic := select128_overflow_panics _ _ _ _ _ _ (by norm_num)
+example : (match suyamaNewFin 35 true with | .ok _ => true | _ => false) = true := by decide
+example : (match suyamaNewFin 35 false with
+    | .ok (a, b, gx, gy) => (match selectCurveFin 35 false a b gx gy 3 with | .factor p => p | _ => 0)
+    | _ => 0) = 7 := by decide
 example : ∃ l, ecmSeeds (311 * 3259) 3 = some l := ⟨_, rfl⟩
 example : suyamaIsValid (-3 : Int) 3 1 1 ⟨1, 1, 1⟩ := by simp [suyamaIsValid, suyamaIsValidSides]
 example : ladder (fun x : Int => x + x) (fun x => x + 1) (fun _ _ => none) 5 (Nat.log2 5) 1 = .ok 5 := by decide
